@@ -25,7 +25,10 @@ state, and the registry walk (`dump` order, `load ∘ dump`, key uniqueness; drv
 `context_dict` that `to_json` wrote at the crash point (handed to the model in scrambled order); the model's own
 codec (`RegistrySim.encode` of the failed model state, "crash_store") against that same `context_dict`: class of
 every object, attribute key sets, every tracked scalar, and the reference graph up to id renaming (tree
-unfolding from the root + number of objects per class, i.e. the same sharing).
+unfolding from the root + number of objects per class, i.e. the same sharing); the model's DECODER both ways:
+`decode (encode s)` reproduces the model's crash-point state ("codec_inverse"), and the implementation's own
+`context_dict` (ids renumbered into the model's layout, scalars tagged: `_canon_impl`) is decoded into a model
+state from which the MODEL run is continued and compared with the implementation's resumed run c.
 """
 from __future__ import annotations
 
@@ -48,7 +51,7 @@ REQUIRED_THEOREMS = [
     "Acn.C09.failed_body_idempotent_prefix", "Acn.C09.resume_eq", "Acn.C09.resume_eq_complete",
     "Acn.C09.dump_each_object_once", "Acn.C09.roundtrip_store", "Acn.C09.sharing_preserved",
     "Acn.C09.roundtrip_resume_eq_partial", "Acn.C09.attrs_complete",
-    "Acn.C09.encode_roundtrip", "Acn.C09.roundtrip_resume_eq_codec_partial",
+    "Acn.C09.encode_roundtrip", "Acn.C09.roundtrip_resume_eq_codec_partial", "Acn.C09.roundtrip_evs_decoded_partial",
 ]
 BUDGET = {"quick": 40, "thorough": 450, "search": 120}
 TRUSTED = ["json.dumps/json.loads round-trip Python floats, ints, strings, lists and dicts exactly (dict order kept)",
@@ -77,6 +80,10 @@ RULE = ("scenario = 1-4 stations of mixed EVSE classes (continuous / deadband / 
         "SimpleRampdown estimator and the minimum-rate option; two-stage batteries) with two extra runs: failure AFTER "
         "the algorithm ran, and JSON round trip with the original algorithm object re-attached; thorough adds EVERY "
         "valid layout of <=3 sessions on <=2 stations within horizon 3 x every crash period; "
+        "80% of the scenarios get station ids whose registration order is not their sorted order (PS-9, PS-10, "
+        "PS-11, …) with differing voltages; 2 of 5 are tie-heavy (several sessions per arrival / departure time in "
+        "shuffled queue order, duplicate recompute events: >= 2 pending events with equal (timestamp, precedence) at "
+        "the crash); event_history is compared as a SEQUENCE, pilots / rates per station BY ID; "
         "one case per scheduler-invoked period k of the scenario + one "
         "non-invoked period; non-trivial = the failure fired with at least one EV connected or an event pending; "
         "distinct by hash of (scenario, k)")
@@ -174,6 +181,35 @@ def _gen_scn(rng):
     return scn
 
 
+ID_SCHEMES = [["PS-9", "PS-10", "PS-11", "PS-2"], ["z", "m", "a", "k"], ["CA-322", "CA-49", "CA-5", "CA-1000"],
+              ["S0", "S1", "S2", "S3"]]
+
+
+def _rename_stations(scn, names):
+    """station ids whose registration order is NOT their sorted order (PS-9, PS-10, PS-11, …): everything that
+    is keyed by station id (sessions, schedules) follows; rows of the matrices stay in registration order"""
+    m = {st["id"]: names[i] for i, st in enumerate(scn["stations"])}
+    for st in scn["stations"]:
+        st["id"] = m[st["id"]]
+    for s_ in scn["sessions"]:
+        s_["station"] = m.get(s_["station"], s_["station"])
+    sc = scn["sched"]
+    if "default" in sc:
+        sc["default"] = [[m.get(k, k), v] for k, v in sc["default"]]
+    for e in sc.get("script", []):
+        if "sched" in e:
+            e["sched"] = [[m.get(k, k), v] for k, v in e["sched"]]
+    return scn
+
+
+def _diversify(rng, scn):
+    """make the stations differ (voltage, EVSE class / max rate) so that a row mix-up is visible"""
+    volts = [208, 240, 120, 277.5]
+    for i, st in enumerate(scn["stations"]):
+        st["V"] = volts[(i + rng.randint(0, 3)) % 4] if rng.random() < 0.7 else st["V"]
+    return scn
+
+
 def _crash_points(scn, every=False):
     a = _run_a(scn)
     inv = sorted(set(a["invoked"]))
@@ -202,6 +238,33 @@ def _gen_stochastic(rng):
             "max_recompute": rng.choice([None, 1, 2]), "noise": [],
             "sched": {"type": "scripted", "default": default, "script": script},
             "stochastic": {"seed": rng.randint(0, 10 ** 6), "early": rng.random() < 0.6}}
+
+
+def _tie_heavy(rng, scn):
+    """many pending events with equal (timestamp, precedence): several sessions per arrival / departure time
+    (queue insertion order shuffled), duplicate recompute events — the restored heap must pop ties in the
+    order the original heap would"""
+    ss = scn["sessions"]
+    if len(ss) < 2:
+        return scn
+    by_st = {}
+    for s_ in ss:
+        by_st.setdefault(s_["station"], []).append(s_)
+    # first session of every station: same arrival and same departure
+    a0 = rng.randint(0, 2)
+    d0 = a0 + rng.randint(1, 3)
+    for lst in by_st.values():
+        lst.sort(key=lambda x: x["arrival"])
+        first = lst[0]
+        shift = None
+        if len(lst) == 1 or lst[1]["arrival"] >= d0:
+            first["arrival"], first["departure"] = a0, d0
+            if first.get("est") is not None:
+                first["est"] = d0 + 1
+    rng.shuffle(ss)
+    t = rng.randint(a0, d0 + 2)
+    scn["recomputes"] = list(scn["recomputes"]) + [t, t, d0]
+    return scn
 
 
 def _gen_real(rng):
@@ -255,6 +318,10 @@ def generate(rng, n, tier):
         out.extend(_exhaustive())
     for i in range(n):
         scn = _gen_stochastic(rng) if i % 5 == 4 else _gen_real(rng) if i % 5 == 3 else _gen_scn(rng)
+        if not scn.get("stochastic") and rng.random() < 0.8:
+            _rename_stations(_diversify(rng, scn), rng.choice(ID_SCHEMES[:3]))
+        if i % 5 in (1, 2) or (i % 5 == 3 and rng.random() < 0.5):
+            _tie_heavy(rng, scn)
         for k in _crash_points(scn):
             out.append({"scn": scn, "k": k})
     return out
@@ -272,6 +339,11 @@ def _quiet():
     w.__enter__()
     warnings.simplefilter("ignore")
     return w
+
+
+def _by_station(sim, obs):
+    obs["station_ids"] = list(sim.network.station_ids)
+    return obs
 
 
 def _sched_hist(sim):
@@ -307,6 +379,7 @@ def _run_stoch(scn, k):
     obs = S.observe(sim, ctx, err)
     obs["noise_draws"] = 0
     obs["sched_hist"] = _sched_hist(sim)
+    _by_station(sim, obs)
     obs["stoch"] = _stoch_extra(sim)
     if first is not None:
         obs["first"] = first
@@ -386,6 +459,7 @@ def _run_resume(scn, hooks):
             obs = S.observe(sim, ctx, err2)
             obs["first"] = first
         obs["noise_draws"] = ns["k"]
+        _by_station(sim, obs)
     return obs
 
 
@@ -402,6 +476,7 @@ def _run_a(scn):
             obs = S.observe(sim, ctx, err)
             obs["noise_draws"] = ns["k"]
             obs["sched_hist"] = _sched_hist(sim)
+            _by_station(sim, obs)
         _A_CACHE[key] = obs
     return _A_CACHE[key]
 
@@ -548,6 +623,102 @@ def _wire_store(j):
     return {"root": int(j["id"]), "store": store, "order": [int(i) for i in ctx.keys()]}
 
 
+def _canon_impl(j, scn):
+    """the implementation's `context_dict` in the model's layout (AcnModel/RegistrySim.lean): ids renumbered
+    (0 simulator, 1 network, 2 queue, EVSEs in registration order, EV/battery pairs in the scenario's session
+    order, pending events in `_queue` order, past events in `event_history` order), scalars tagged.  Attributes
+    the model does not track are dropped; `_model_*` attributes (recompute tags, the unused two-stage parameters
+    of an ideal battery) are supplied from the scenario.  Returns None when the document does not have the
+    expected shape (reported as a disagreement)."""
+    ctx = j["context_dict"]
+    sim = ctx[j["id"]]["attributes"]
+    net_id, q_id = sim["network"], sim["event_queue"]
+    net, q = ctx[net_id]["attributes"], ctx[q_id]["attributes"]
+    stations = [st["id"] for st in scn["stations"]]
+    nst = len(stations)
+    bE = 3 + nst
+    sess = [x["session"] for x in scn["sessions"]]
+    bP = bE + 2 * len(sess)
+    queue = q["_queue"]
+    bH = bP + len(queue)
+    new = {j["id"]: 0, net_id: 1, q_id: 2}
+    if list(net["_EVSEs"].keys()) != stations:
+        return None
+    for i, st in enumerate(stations):
+        new[net["_EVSEs"][st]] = 3 + i
+    ev_objs = {o["attributes"]["_session_id"]: i for i, o in ctx.items() if o["class"].endswith(".EV")}
+    if sorted(ev_objs) != sorted(sess):
+        return None
+    for jx, sid in enumerate(sess):
+        new[ev_objs[sid]] = bE + 2 * jx
+        new[ctx[ev_objs[sid]]["attributes"]["_battery"]] = bE + 2 * jx + 1
+    for p_, (ts, eid) in enumerate(queue):
+        new[eid] = bP + p_
+    for h, eid in enumerate(sim["event_history"]):
+        new[eid] = bH + h
+    if len(new) != len(ctx):
+        return None
+
+    def f(x):
+        return {"s": "f:" + str(C.f2b(float(x)))}
+
+    def i_(x):
+        return {"s": "null"} if x is None else {"s": "i:" + str(int(x))}
+
+    def st_(x):
+        return {"s": "s:" + str(x)}
+
+    def mat(m):
+        return {"s": "m:" + json.dumps({"w": len(m[0]) if m else 0, "rows": [[C.f2b(float(x)) for x in r] for r in m]})}
+
+    def ref(x):
+        return {"s": "null"} if x is None else {"r": new[x]}
+
+    tags = {}
+    for ix, t in enumerate(scn.get("recomputes", [])):
+        tags.setdefault(int(t), []).append(f"r{ix}")
+    out = []
+    out.append([0, "Simulator", [
+        ["network", ref(net_id)], ["event_queue", ref(q_id)], ["_iteration", i_(sim["_iteration"])],
+        ["_resolve", {"s": "b:true" if sim["_resolve"] else "b:false"}],
+        ["_last_schedule_update", i_(sim["_last_schedule_update"])], ["peak", f(sim["peak"])],
+        ["pilot_signals", mat(sim["pilot_signals"])], ["charging_rates", mat(sim["charging_rates"])],
+        ["ev_history", {"l": [x for sid, e in sim["ev_history"].items() for x in ({"s": "s:" + sid}, {"r": new[e]})]}],
+        ["event_history", {"l": [{"r": new[e]} for e in sim["event_history"]]}]]])
+    out.append([1, "ChargingNetwork", [["_EVSEs", {"l": [x for st, e in net["_EVSEs"].items() for x in ({"s": "s:" + st}, {"r": new[e]})]}]]])
+    out.append([2, "EventQueue", [["_queue", {"l": [x for ts, e in queue for x in ({"s": "i:" + str(int(ts))}, {"r": new[e]})]}]]])
+    for oid, o in ctx.items():
+        cls = o["class"].split(".")[-1]
+        a = o["attributes"]
+        if cls in ("EVSE", "DeadbandEVSE", "FiniteRatesEVSE"):
+            out.append([new[oid], cls, [["_station_id", st_(a["_station_id"])], ["_current_pilot", f(a["_current_pilot"])],
+                                         ["_ev", ref(a["_ev"])]]])
+        elif cls == "EV":
+            out.append([new[oid], cls, [
+                ["_arrival", i_(a["_arrival"])], ["_departure", i_(a["_departure"])], ["_session_id", st_(a["_session_id"])],
+                ["_station_id", st_(a["_station_id"])], ["_requested_energy", f(a["_requested_energy"])],
+                ["_estimated_departure", i_(a["_estimated_departure"])], ["_energy_delivered", f(a["_energy_delivered"])],
+                ["_current_charging_rate", f(a["_current_charging_rate"])], ["_battery", ref(a["_battery"])]]])
+        elif cls in ("Battery", "Linear2StageBattery"):
+            base = [[k, f(a[k])] for k in ("_max_power", "_current_charging_power", "_current_charge", "_capacity", "_init_charge")]
+            if cls == "Battery":
+                spec = scn["sessions"][(new[oid] - bE - 1) // 2]["batt"]
+                base += [["_model_noise_level", f(I.num(spec.get("noise", 0)))], ["_model_transition_soc", f(I.num(spec.get("ts", 0.8)))],
+                         ["_model_charge_calculation", st_(spec.get("calc", "continuous"))]]
+            else:
+                base += [["_noise_level", f(a["_noise_level"])], ["_transition_soc", f(a["_transition_soc"])],
+                         ["charge_calculation", st_(a["charge_calculation"])]]
+            out.append([new[oid], cls, base])
+        elif cls in ("PluginEvent", "UnplugEvent"):
+            out.append([new[oid], cls, [["timestamp", i_(a["timestamp"])], ["ev", ref(a["ev"])]]])
+        elif cls == "RecomputeEvent":
+            lst = tags.get(int(a["timestamp"]), [])
+            tag = lst.pop(0) if lst else "r?"
+            out.append([new[oid], cls, [["timestamp", i_(a["timestamp"])], ["_model_tag", st_(tag)]]])
+    out.sort(key=lambda e: e[0])
+    return out
+
+
 def _evs_of(sim, scn):
     by = {}
     for _, ev in _all_evs(sim):
@@ -568,6 +739,7 @@ def _run_json(scn, k, store_hist, net_cls, want_store, reattach="fresh"):
             obs = S.observe(sim, ctx, err)
             obs["noise_draws"] = ns["k"]
             obs["sched_hist"] = _sched_hist(sim)
+            _by_station(sim, obs)
             obs["occ"] = [list(r) for r in _OCC] if net_cls is LogNetwork else []
             out["obs"] = obs
             return out
@@ -590,6 +762,8 @@ def _run_json(scn, k, store_hist, net_cls, want_store, reattach="fresh"):
         out["same_object"] = sim2 is sim
         if want_store:
             out["store"] = _wire_store(j1)
+            out["canon"] = _canon_impl(j1, scn)
+            out["noise_at_crash"] = ns["k"]
         evs, missing = _evs_of(sim2, scn)
         out["missing_evs"] = missing
         err2 = S.run_sim(sim2)
@@ -597,6 +771,7 @@ def _run_json(scn, k, store_hist, net_cls, want_store, reattach="fresh"):
         obs = S.observe(sim2, ctx2, err2)
         obs["noise_draws"] = ns["k"]
         obs["sched_hist"] = _sched_hist(sim2)
+        _by_station(sim2, obs)
         obs["occ"] = [list(r) for r in _OCC] if net_cls is LogNetwork else []
         out["obs"] = obs
     return out
@@ -629,6 +804,13 @@ def model_request(case, obs=None):
     if obs and isinstance(obs.get("c"), dict) and obs["c"].get("store"):
         st = obs["c"]["store"]
         req["reg"] = {"root": st["root"], "store": st["store"]}
+        if obs["c"].get("canon") is not None:
+            # decode the implementation's own document into a model state and continue the MODEL run from it
+            dreq = dict(req["sim"])
+            dreq["sched"] = dreq.pop("resume")
+            dreq["store"] = obs["c"]["canon"]
+            dreq["amb"] = {"invoked": [], "noise_draws": obs["c"]["noise_at_crash"], "occ": []}
+            req["decode"] = dreq
     return req
 
 
@@ -640,6 +822,20 @@ def compare(case, obs, model):
     st = obs["c"].get("store") if obs.get("c") else None
     if st is not None and model.get("sim") and model["sim"].get("crash_store") is not None:
         diffs.extend(_codec_diffs(model["sim"]["crash_store"], st["store"], st["root"]))
+        if not model["sim"].get("codec_inverse"):
+            diffs.append("codec: decode (encode s) differs from s on the model's crash-point state")
+    if st is not None:
+        if obs["c"].get("canon") is None:
+            diffs.append("decode: the implementation's context_dict does not have the expected shape")
+        elif not model.get("decode") or not model["decode"].get("decoded"):
+            diffs.append("decode: the model could not decode the implementation's context_dict")
+        else:
+            dm = S.decode_model(model["decode"])
+            oc = dict(obs["c"]["obs"])
+            dm["occ"] = oc["occ"]                   # run c uses the plain ChargingNetwork: no occupancy log
+            dd = []
+            S.compare_state(case["scn"], oc, dm, dd, tag="decoded+resumed: ")
+            diffs.extend(dd[:4])
     if st is not None:
         if reg is None:
             diffs.append("registry: no model answer")
@@ -687,7 +883,7 @@ def _scalar(text, model_side):
     if tag == "f":
         return C.b2f(int(body))
     if tag == "m":
-        return [[C.b2f(x) for x in row] for row in json.loads(body)]
+        return [[C.b2f(x) for x in row] for row in json.loads(body)["rows"]]
     raise ValueError(f"model scalar {text!r}")
 
 
@@ -835,6 +1031,17 @@ def _same(a, o, tag, k, check_invoked):
             d.append(f"{key}: uninterrupted {a[key]!r} {tag} {o[key]!r}")
     if a["event_history"] != o["event_history"]:
         d.append(f"event_history: uninterrupted {a['event_history']} {tag} {o['event_history']}")
+    if "station_ids" in a and "station_ids" in o:
+        if a["station_ids"] != o["station_ids"]:
+            d.append(f"network.station_ids: {a['station_ids']} vs {o['station_ids']}")
+        for nm in ("pilots", "rates"):          # per station, by id
+            ra = dict(zip(a["station_ids"], a[nm]))
+            ro = dict(zip(o["station_ids"], o[nm]))
+            for st in a["station_ids"]:
+                x, y = ra.get(st), ro.get(st)
+                if y is None or len(x) != len(y) or any(not C.close(p_, q_) for p_, q_ in zip(x, y)):
+                    d.append(f"{nm} of station {st}: {x} vs {y}")
+                    break
     for nm in ("pilots", "rates"):
         if not _mat_eq(a[nm], o[nm]):
             sh = f"{len(a[nm])}x{len(a[nm][0]) if a[nm] else 0} vs {len(o[nm])}x{len(o[nm][0]) if o[nm] else 0}"
@@ -892,7 +1099,7 @@ def oracle(case, obs):
     if scn.get("stochastic") and a.get("stoch") != b.get("stoch"):
         db.append(f"stochastic network: {a.get('stoch')} vs {b.get('stoch')}")
     if db:
-        noop = fired and b["iter"] == k and a["iter"] > k
+        noop = fired and b["iter"] == k and a["iter"] > k and b["err"] is None
         fails.append({"kind": "resume_last_period_noop" if noop else "resume_differs",
                       "detail": f"crash at {k}, run() again: " + "; ".join(db[:4])})
     for tag, r, kind in (("json", c, "json_resume_differs"), ("json+history", d, "json_history_resume_differs")):
@@ -907,7 +1114,7 @@ def oracle(case, obs):
         if r["fired"] and r.get("missing_evs"):
             dd.append(f"EVs not reachable from the loaded simulator: {r['missing_evs']}")
         if dd:
-            noop = r["fired"] and r["obs"]["iter"] == k and a["iter"] > k
+            noop = r["fired"] and r["obs"]["iter"] == k and a["iter"] > k and r["obs"]["err"] is None
             fails.append({"kind": "resume_last_period_noop" if noop else kind,
                           "detail": f"crash at {k}, {tag} round trip, resume: " + "; ".join(dd[:4])})
         if r["fired"]:
@@ -963,6 +1170,9 @@ def features(case, obs):
         kinds = sorted({e[1] for e in first["pending"]})
         f.append("pending=" + ("+".join(kinds) if kinds else "none"))
         f.append("connected_at_crash=" + str(min(3, sum(1 for x in first["occ_final"] if x is not None))))
+        keys = [(e[0], e[1]) for e in first["pending"]]
+        nt = len(keys) - len(set(keys))
+        f.append("pending_ties_at_crash=" + ("0" if nt == 0 else "1" if nt == 1 else "2+"))
         if k == 0:
             f.append("crash_at_0")
         if first["resolve"]:
@@ -991,6 +1201,10 @@ def features(case, obs):
         f.append("shared_triples=" + str(min(3, c["n_shared"])))
     kinds = sorted({st["kind"]["t"] for st in scn["stations"]})
     f.append("evse=" + "+".join(kinds))
+    ids = [st["id"] for st in scn["stations"]]
+    f.append("station_ids_registered_in_sorted_order=" + str(ids == sorted(ids)))
+    if len({(st["V"], json.dumps(st["kind"], sort_keys=True)) for st in scn["stations"]}) > 1:
+        f.append("stations_differ")
     bt = set()
     for s in scn["sessions"]:
         bb = s["batt"]
